@@ -177,6 +177,17 @@ def surface_variants(body, rng):
     vs.append(("whitespace padding inside tokens", pad))
     cm = re.sub(r"><", lambda m: ">" + rng.choice(["", "<!-- c -->", "<?pi x?>", "<!--a--><!--b-->"]) + "<", plain)
     vs.append(("comments/PIs", cm))
+    def inside(m):
+        # a comment / PI inside the text of a token (between two characters, never inside a character reference)
+        units = re.findall(r"&[^;]+;|.", m.group(3), re.S)
+        k = rng.randint(0, len(units)) if len(units) < 2 or rng.random() < 0.3 else rng.randint(1, len(units) - 1)
+        ins = rng.choice(["<!-- c -->", "<!--a--><!--b-->", "<?pi x?>", "<!-- c --><?pi x?>"])
+        out = "".join(units[:k]) + ins + "".join(units[k:])
+        if len(units) > 2 and rng.random() < 0.3:
+            out = out + "<!--t-->"
+        return "<%s%s>%s</" % (m.group(1), m.group(2), out)
+    ci = re.sub(r"<(m[ion]|mtext)((?: [^>]*)?)>([^<]+)</", inside, plain)
+    vs.append(("comments/PIs inside token text", ci))
     vs.append(("doc prolog", "<?xml version='1.0'?><!-- lead -->" + plain + "<!-- trail -->"))
     mj = re.sub(r"<(m[a-z]+)(?=[ >])", lambda m: "<%s class=\"MJX-TeXAtom-ORD\"" % m.group(1) if rng.random() < 0.5 else m.group(0), plain)
     vs.append(("mathjax v2 class", mj))
